@@ -11,6 +11,7 @@ From Coq Require Import NArith ZArith List.
 Import ListNotations.
 From stdpp Require Import gmap.
 From CV Require Export Chain.Crash Run.Run_C02.
+From CV Require Chain.Reopen.
 From CV Require Run.Run_C01.
 Export ListNotations.
 Open Scope N_scope.
@@ -32,6 +33,12 @@ Record case := mk_case3 {
   c3_events : list cmev;
   c3_images : list (dump * option N);       (* committed image, and the tip NewDBStore reports on it *)
   c3_reopened : list mcase;
+  (* when the threshold fired after every block step: the universe, the calls of the run,
+     and what every committed image (the first one of each step, in order) reopened to —
+     the record of every block and the best chain; [] = not recorded *)
+  c3_univ : list (N * Manager.blk);
+  c3_ops : list Manager.mop;
+  c3_bounds : list (list (N * (N * bool * bool)) * list N);
 }.
 
 Definition to_mev (U : gmap N (N * diffs)) (e : cmev) : option mev :=
@@ -64,6 +71,21 @@ Definition check_mcase (m : mcase) : bool :=
   Run_C01.check_hist (list_to_map (m_univ m))
                      (Manager.Mgr (decode_known (m_known m)) (m_best m)) (m_hist m).
 
+(** the block boundaries of the manager model are the images the database committed *)
+Fixpoint check_bounds_list (bs : list Manager.mgr)
+         (os : list (list (N * (N * bool * bool)) * list N)) : bool :=
+  match bs, os with
+  | [], [] => true
+  | b :: bs', (kn, be) :: os' =>
+      Run_C01.eqb_list be (Manager.best b) && Run_C01.check_known b kn && check_bounds_list bs' os'
+  | _, _ => false
+  end.
+Definition check_bounds (c : case) : bool :=
+  match c3_bounds c with
+  | [] => true
+  | os => check_bounds_list (Reopen.boundaries (list_to_map (c3_univ c)) (c3_ops c)) os
+  end.
+
 Definition check_case (c : case) : bool :=
   let U := list_to_map (c3_blocks c) in
   match mapM (to_mev U) (c3_events c) with
@@ -73,7 +95,7 @@ Definition check_case (c : case) : bool :=
       | None => false
       | Some ims => check_images (c3_R c) (c3_probe c) ims (c3_images c)
       end
-  end && forallb check_mcase (c3_reopened c).
+  end && forallb check_mcase (c3_reopened c) && check_bounds c.
 
 Fixpoint mismatches_from (i : N) (cs : list case) : list N :=
   match cs with
